@@ -23,7 +23,7 @@ def _doc_batch(args):
         try:
             w = E.doc_case(_W['drv'], rnd, cls=rnd.choice(big if k % 4 else E.ALL), depth=rnd.choice(opts.get('depths', [0, 1, 2])),
                            mixed_chk=rnd.random() < opts.get('mixed', 0.25), copy=rnd.random() < opts.get('copy', 0.3),
-                           dots=opts.get('dots', True))
+                           dots=opts.get('dots', True), roots=rnd.choice(opts.get('roots', [1])))
         except Exception:
             import traceback
             out['dis'].append({'harness_error': traceback.format_exc()[-1200:]})
